@@ -52,7 +52,7 @@ CLAIMED["C04"] = dict(
     note=COMMON_NOTE + " Uses C08_no_internal (a write after a get at the same instant succeeds on the built-in stores).")
 CLAIMED["C07"] = dict(
     text="Proof (Lean 4): lifetime - every write of an admitted request in D asks for E <= ttl <= 2*B*E (C07_ttl_bounds), denied/zero-quantity requests write nothing, and once the lifetime has passed the key answers exactly as never seen (C07_forgetting_unobservable); "
-         "reclamation - sweep postcondition; each store's guaranteed cleanup point sweeps (periodic: now >= next_cleanup; adaptive: now >= next_cleanup or operation budget; probabilistic: the N-th write at EVERY operation count (C07_guaranteed_trigger_probabilistic; 128-bit product since fix a6d9ac7), hence a cleanup among any N consecutive writes (C07_probabilistic_every_window), exactly every N-th for N coprime to the multiplier (C07_probabilistic_trigger_exact)), after which every held entry is unexpired, keys are distinct and the entry count is at most the size of the active set (C07_reclaimed_*, C07_entries_bounded_by_active). "
+         "reclamation - sweep postcondition; each store's guaranteed cleanup point sweeps (periodic: now >= next_cleanup; adaptive: now >= next_cleanup or operation budget; probabilistic: the N-th write at EVERY operation count (C07_guaranteed_trigger_probabilistic; 128-bit product since fix a6d9ac7), hence a cleanup among any N consecutive writes (C07_probabilistic_every_window), exactly every N-th for N coprime to the multiplier (C07_probabilistic_trigger_exact)), after which every held entry is unexpired, keys are distinct and the entry count is at most the size of the active set (C07_reclaimed_*, C07_entries_bounded_by_active), stated over an arbitrary operation history as C07_bounded_over_history. "
          "Partial in one respect: the probabilistic trigger after the 64-bit product wraps (~6.9e9 writes) is not proved (theorem named _partial). O leg: unbounded fresh-key streams on the real stores, entry set inspected through the hook after every guaranteed point.",
     design="§5 C07", technique="Lean 4 proof (lifetime arithmetic on D; per-store trigger lemmas) + state-level differential correspondence",
     note=COMMON_NOTE + " The pre-fix 64-bit wrapping trigger is kept as Prob.firesWrapped with the kernel-evaluated gap witness C07_wrapped_trigger_gap (finding F8, fixed); the harness runs probabilistic stores from the state after 10^9..10^12 writes (hook verif_set_operations_count); the counting step (entries <= |active set|) is C07_entries_bounded_by_active. The u64 operation counter is modelled as an unbounded natural number.")
